@@ -33,11 +33,12 @@ GNext ==
      \/ CreateCheckpoint /\ Rec(<<"mkckpt">>) /\ UNCHANGED <<cnt, faulted>>
      \/ Restore /\ Rec(<<"restore">>) /\ UNCHANGED <<cnt, faulted>>
      \/ \E ln \in AltLineUps : SetSamplers(ln) /\ Rec(<<"set", ln>>) /\ UNCHANGED <<cnt, faulted>>
+     \/ \E ln \in AltLineUps : SetScheduler(ln) /\ Rec(<<"setsched", ln>>) /\ UNCHANGED <<cnt, faulted>>
   /\ UNCHANGED K
 
 (* a script is emitted whenever the object is at rest after at least one call *)
-Emit == (pc \in {"idle", "raised"} /\ Len(ops) > 0 /\ ops[Len(ops)][1] \notin {"mkckpt", "set"})
+Emit == (pc \in {"idle", "raised"} /\ Len(ops) > 0 /\ ops[Len(ops)][1] \notin {"mkckpt", "set", "setsched"})
            => PrintT(<<"SCRIPT", ToJson(ops)>>)
 (* keep the exploration finite and the scripts meaningful: no two operations between calls in a row *)
-Bound == Len(ops) < 2 \/ ~(ops[Len(ops)][1] \in {"mkckpt", "restore", "set"} /\ ops[Len(ops) - 1][1] \in {"mkckpt", "restore", "set"})
+Bound == Len(ops) < 2 \/ ~(ops[Len(ops)][1] \in {"mkckpt", "restore", "set", "setsched"} /\ ops[Len(ops) - 1][1] \in {"mkckpt", "restore", "set", "setsched"})
 =============================================================================
